@@ -31,6 +31,7 @@ void do_call(MockType& m, int fn, int a0, int a1, Obs& o, int& argcell, std::str
     case FN_K: { argcell = a0; const MockType& cm = m; const int& r = cm.k(argcell); o.refaddr = &r; o.outcome = OC_RET_REF; break; }  // value read later, only through an address we trust
     case FN_Z: m.z(); o.outcome = OC_RET_VOID; break;
     case FN_V: { vecarg = {a0, a0 + 1, a0}; m.v(vecarg); o.outcome = OC_RET_VOID; break; }
+    case FN_P: { auto pr = m.p(a0); o.sval = "{ " + std::to_string(pr.first) + ", " + std::to_string(pr.second) + " }"; o.outcome = OC_RET_STR; break; }   // as the library prints a pair
     default: break;
   }
 }
@@ -185,6 +186,7 @@ void ExecImpl::op_call(const Op& op) {
   if (shadow) {
     if (!weak && cat == ACCEPT) {
       busy_exps.insert(cand); busy_mocks.insert(mock);
+      for (auto& n : op.nested) if (n.first == -1 && !stop) step(n.second, true);
       for (size_t j = 0; j < acts.size(); ++j)
         for (auto& n : op.nested) if (n.first == static_cast<int>(j) && !stop) step(n.second, true);
       busy_exps.erase(cand); busy_mocks.erase(mock);
@@ -291,7 +293,7 @@ void ExecImpl::op_call(const Op& op) {
       if (!wp.params_ok) { fail(real_rejected ? "C08,C15" : "C08", "with_after_param_reject", "WITH of " + describe_exp(kv.first) + " evaluated although a parameter matcher rejects the call"); return; }
       int expect_k = 0;
       for (const ClauseEv* c : kv.second) {
-        if (c->k != expect_k) { fail("C08", "with_order", "WITH clauses of " + describe_exp(kv.first) + " evaluated out of declaration order / past a failing clause (saw index " + std::to_string(c->k) + ", expected " + std::to_string(expect_k) + ")"); return; }
+        if (c->k != expect_k) { fail(real_rejected ? "C08,C15" : "C08", "with_order", "WITH clauses of " + describe_exp(kv.first) + " evaluated out of declaration order / past a failing clause (saw index " + std::to_string(c->k) + ", expected " + std::to_string(expect_k) + ")"); return; }
         bool should = !(wp.first_fail == c->k);
         if ((c->val != 0) != should) { fail("C08,C09", "with_value", "WITH #" + std::to_string(c->k) + " of " + describe_exp(kv.first) + " evaluated to " + std::to_string(c->val) + " for " + call_desc()); return; }
         if (wp.first_fail == c->k || c->k == wp.nwith - 1) expect_k = 0; else expect_k = c->k + 1;
@@ -383,7 +385,7 @@ void ExecImpl::op_call(const Op& op) {
         fail("C08", "action_order", os.str());
         return;
       }
-      bool lr = c.kind == 'S' ? d.se_lr[c.k] : (d.rk == RK_LRVAL || d.rk == RK_LRSTR || d.rk == RK_LRSTR_VAR || d.rk == RK_REF_PARAM || d.rk == RK_REF_CELL || d.rk == RK_CREF_CELL);
+      bool lr = c.kind == 'S' ? d.se_lr[c.k] : (d.rk == RK_LRVAL || d.rk == RK_LRSTR || d.rk == RK_LRSTR_VAR || d.rk == RK_LRPAIR_VAR || d.rk == RK_REF_PARAM || d.rk == RK_REF_CELL || d.rk == RK_CREF_CELL);
       long wantsnap = lr ? c.msnap : e.snap0;
       if (c.val != wantsnap) {
         fail("C09", "capture_time", std::string(lr ? "LR_ " : "plain ") + "clause " + c.kind + std::to_string(c.k) + " of " + describe_exp(cand) + " saw local = " + std::to_string(c.val) + ", expected " + std::to_string(wantsnap) + " (value at creation " + std::to_string(e.snap0) + ", when the clause ran " + std::to_string(c.msnap) + ")");
@@ -410,6 +412,8 @@ void ExecImpl::op_call(const Op& op) {
   if (fn == FN_S && strarg != std::to_string(args[0])) { fail("C09", "argument_modified", "the caller's std::string argument is '" + strarg + "' after the call, it was '" + std::to_string(args[0]) + "'; handled by " + describe_exp(cand)); return; }
   if (d.rk == RK_LRSTR_VAR && rexps[static_cast<size_t>(cand)].inst && rexps[static_cast<size_t>(cand)].inst->str != std::to_string(1000 + cand)) {
     fail("C09", "local_modified", "the local named in LR_RETURN of " + describe_exp(cand) + " is '" + rexps[static_cast<size_t>(cand)].inst->str + "' after the call, it was '" + std::to_string(1000 + cand) + "'"); return; }
+  if (d.rk == RK_LRPAIR_VAR && rexps[static_cast<size_t>(cand)].inst && rexps[static_cast<size_t>(cand)].inst->pr != std::make_pair(1000 + cand, cand)) {
+    fail("C09", "local_modified", "the local named in LR_RETURN of " + describe_exp(cand) + " was changed by the call"); return; }
   // outcome
   {
     int wo = OC_NONE; long wv = 0; std::string ws; const void* wa = nullptr;
@@ -425,6 +429,8 @@ void ExecImpl::op_call(const Op& op) {
       case RK_LRSTR: wo = OC_RET_STR; ws = std::to_string(code_lr); break;
       case RK_STR_PARAM: wo = OC_RET_STR; ws = std::to_string(args[0]); break;     // a copy of the caller's argument
       case RK_LRSTR_VAR: wo = OC_RET_STR; ws = std::to_string(1000 + cand); break;  // a copy of the local named in LR_RETURN
+      case RK_PAIR: wo = OC_RET_STR; ws = "{ " + std::to_string(code_plain) + ", " + std::to_string(e.snap0) + " }"; break;
+      case RK_LRPAIR_VAR: wo = OC_RET_STR; ws = "{ " + std::to_string(1000 + cand) + ", " + std::to_string(cand) + " }"; break;
       case RK_REF_PARAM: wo = OC_RET_REF; wa = &argcell; break;
       case RK_REF_CELL: case RK_CREF_CELL: wo = OC_RET_REF; wa = rexps[static_cast<size_t>(cand)].cell.get(); break;
       case RK_CREF_PARAM: wo = OC_RET_REF; wa = &argcell; break;
